@@ -15,6 +15,16 @@ CHECKS = {
    note="Trusts reference arithmetic; coefficient alphabets (7-16 members) instead of all coefficients.",
    technique="bounded-exhaustive enumeration of operand tuples against a reference model",
    engine="fields", design_ref="§4 C08"),
+ "C11": dict(category="exploration",
+   text="All six hashers: byte strings of every length 0..200/330 x 3 contents and element lists of every length around the rate boundaries against independent references (blake3/sha3 crates; a textbook Rescue sponge / Jive compression written from the doc comments over plain residues); totality (panics are violations), length/trailing-zero separation over all pairs, base/extension typing and internal-representation independence, merge = documented definition for all ordered digest pairs, merge_with_int layout and pairwise injectivity over integer classes around the modulus; Rescue permutations vs the reference round function; frequency-domain MDS products vs plain matrix products on every state of {0,2^32-1,2^32,p-1}^8 and ^12 (3 limbs quick); constants vs defining equations and a pinned fingerprint.",
+   note="Trusts the blake3/sha3 crates and refmath; constants are read from the crate's published tables and bound by equations + fingerprint; needs the crypto verif hook for crate-private functions.",
+   technique="bounded-exhaustive enumeration of inputs/states against reference implementations",
+   engine="hashes", design_ref="§4 C11"),
+ "C19": dict(category="model_checking",
+   text="Explicit-state BFS over public-coin histories (new/reseed/draw base-quad-cubic/draw_integers/check_leading_zeros) for all six hashers to depth 3-4 (quick) / 4-6 (thorough); each transition runs on the real DefaultRandomCoin and on a reference coin written from the doc comments and is compared; every state is probed for its next outputs, which must be a function of and injective in the canonical reference state.",
+   note="Trusts the hasher primitives (C11); coin states differing only by skipped invalid candidates are identified (they are observationally equal by construction of rejection sampling).",
+   technique="explicit-state model checking of the implementation against a reference model with per-transition conformance",
+   engine="hashes", design_ref="§4 C19"),
  "C12": dict(category="exploration",
    text="Every member of boundary alphabets of every serializable type (sizes around every vint64 length, nested collections, all field/extension/digest types, the full product of legal ProofOptions, every legal TraceInfo width pair, contexts, commitments, query sets up to 255x255, OOD frames up to 255 columns, FRI proofs up to 256 remainder coefficients) is encoded and decoded through all three reader implementations (ReadAdapter with three chunkings), with exact-consumption checked by sentinel bytes; second-level parse() of proof components must return what the constructors were given.",
    note="Values are built through public constructors; equality is the types' PartialEq; whole Proof values are covered by C01's corpus.",
@@ -63,6 +73,7 @@ def main():
         "engines": [
             {"name": "kit", "path": "harness/kit", "serves_properties": ALL, "kind_free_text": "bounded-exhaustive explorer with watchdog (E1), level-synchronous explicit-state BFS (E2), evidence/replay/known-findings, reference arithmetic"},
             {"name": "fields", "path": "harness/bins/fields", "serves_properties": ["C07", "C08"], "kind_free_text": "alphabet products + representation reachability"},
+            {"name": "hashes", "path": "harness/bins/hashes", "serves_properties": ["C11", "C19"], "kind_free_text": "reference sponge/coin; BFS over coin histories"},
             {"name": "serial", "path": "harness/bins/serial", "serves_properties": ["C12", "C13"], "kind_free_text": "round-trip enumeration over readers; BFS over reader histories"},
         ],
         "checks": checks,
